@@ -367,6 +367,7 @@ def run(prog, rep, tier):
             body = one_body(prog, rep, 'R06.3', 'mla', exact=fname)
         if body is None:
             continue
+        body = inlined_body(prog, body)      # shared codec helpers (length-suffixed record reader, options builder)
         seq = []
         for bb, k in ordered_ops(body, set(range(len(body.blocks)))):
             t = body.blocks[bb].term
